@@ -220,6 +220,22 @@ def body_bag(ctx, case):
     mx = max(tot)
     z = mx + math.log(sum(math.exp(x - mx) for x in tot))
     ctx.check(all(abs(p - (x - z)) < 1e-9 for p, x in zip(post, tot)), "posteriors_not_softmax_of_totals", desc)
+    # history on one bag: the public lm_weight is changed after a query (an LM-weight sweep over one n-best list) and more
+    # hypotheses are added; every answer must equal that of a fresh bag in the same state
+    for w2 in (0.0, w + 0.5, 1.0):
+        boh.lm_weight = w2
+        fresh = BagOfHypotheses(lm_weight=w2)
+        for t, v, l in hyps:
+            fresh.add(t, v, l if with_lm else None)
+        p1 = [float(x) for x in boh.posteriors()]
+        p2 = [float(x) for x in fresh.posteriors()]
+        ctx.check(all(abs(a - b) < 1e-9 or a == b for a, b in zip(p1, p2)) and abs(sum(math.exp(x) for x in p1) - 1.0) < 1e-9,
+                  "posteriors_stale_after_lm_weight_change", lambda: "weight %r -> %r: %r vs fresh %r; " % (w, w2, p1, p2) + desc())
+        ctx.check(abs(boh.confidence() - fresh.confidence()) < 1e-12 and boh.best_hyp() == fresh.best_hyp() or len(set(round(x, 9) for x in p2)) < len(p2),
+                  "bag_answers_depend_on_query_history", desc)
+    boh.add("zz-extra", -3.0, -1.0 if with_lm else None)
+    post3 = [float(x) for x in boh.posteriors()]
+    ctx.check(len(post3) == len(hyps) + 1 and abs(sum(math.exp(x) for x in post3) - 1.0) < 1e-9, "posteriors_stale_after_add", desc)
     if len(hyps) >= 2 and with_lm:
         ctx.nontrivial(("bag", case))
 
